@@ -171,11 +171,17 @@ def run(ctx):
         defined = ident in defs
         hdr = streams.header_bytes(num)
         tails = [b"", bytes(rng.getrandbits(8) for _ in range(rng.randint(1, 40))),
-                 bytes(rng.getrandbits(8) for _ in range(1021))]
+                 bytes(rng.getrandbits(8) for _ in range(1021)),
+                 b"\xff" * rng.randint(5, 12), b"\x00" * rng.randint(5, 12)]  # saturated / empty bits behind the number
         if not ctx.quick:
             tails += [bytes(rng.getrandbits(8) for _ in range(rng.randint(1, 200))) for _ in range(40)]
         for t in tails:
-            p = bytes([hdr[0], hdr[1] | (rng.getrandbits(4) if t else 0)]) + t
+            low = rng.getrandbits(4) if t else 0
+            if t[:1] == b"\xff":
+                low = 0x0F
+            elif t[:1] == b"\x00" and len(t) < 20:
+                low = 0
+            p = bytes([hdr[0], hdr[1] | low]) + t
             check(ctx, p, ident, defined, False)
         if defined:
             for _ in range(8 if ctx.quick else 30):
